@@ -169,7 +169,17 @@ func c20World(N, P, F int) (*vWorld, int) {
 	for j := 0; j < P; j++ {
 		js := "p" + strconv.Itoa(j)
 		p := w.addPod(g, verifChoice(js+".node", N+2)-2, false, verifInt(js+".cpu", 0, 3*w.cpuPerNode), 1<<20, false)
-		switch verifChoice(js+".odd", 5) {
+		switch verifChoice(js+".odd", 8) {
+		case 5:
+			p.obj.Spec.NodeSelector = nil
+			p.obj.Spec.Affinity = &v1.Affinity{}
+		case 6:
+			p.obj.Spec.NodeSelector = nil
+			p.obj.Spec.Affinity = &v1.Affinity{NodeAffinity: &v1.NodeAffinity{}}
+		case 7:
+			p.obj.Spec.NodeSelector = map[string]string{"other": "x"}
+			p.obj.Spec.Affinity = &v1.Affinity{NodeAffinity: &v1.NodeAffinity{
+				PreferredDuringSchedulingIgnoredDuringExecution: []v1.PreferredSchedulingTerm{{Weight: 1}}}}
 		case 1:
 			p.obj.Spec.Containers[0].Resources.Requests = nil
 		case 2:
